@@ -1283,6 +1283,11 @@ def fault_lines():
         ("syntax", [line("garbage", text=".db 5 'a'")]),
         ("syntax", [line("garbage", text=".org 4 5")]),
         ("syntax", [line("garbage", text="ldi r16 1")]),
+        # a comment opener does not make the rest of the line a comment
+        ("syntax", [line("garbage", text="/* set up */ ldi r16, 1")]),
+        ("syntax", [line("garbage", text="/* not closed ldi r16, 1")]),
+        ("syntax", [line("garbage", text="/**/ ret")]),
+        ("syntax", [line("garbage", text="// note */ nop /*")] if False else [line("garbage", text="/* a */ /* b */ nop")]),
         ("unknown-mnemonic", [call("frobnicate", R(1), R(2))]),
         ("unknown-mnemonic", [call("frobnicate")]),
         ("unknown-mnemonic", [call("blorp", E(3))]),
